@@ -53,7 +53,20 @@ def m_cache_clear_identity(payload):
             and w.get("epoch_earlier") is not None and w.get("epoch_earlier") != w.get("epoch_later"))
 
 
-MATCHERS = {"m_cache_clear_identity": m_cache_clear_identity}
+def m_tzical_clone(payload):
+    """F-C18-c: a tzical zone (_tzicalvtz) has identity equality and holds rrule cache locks: its copy
+    is unequal, deepcopy/pickle raise TypeError/PicklingError -- and nothing else."""
+    i = payload.get("input") or {}
+    if i.get("cls") != "_tzicalvtz":
+        return False
+    if payload.get("kind") == "copy/pickle of a zone is not equal to it":
+        return i.get("via") == "copy"
+    if payload.get("kind") == "copy/pickle raised":
+        return i.get("via") != "copy" and payload.get("exception") in ("TypeError", "PicklingError")
+    return False
+
+
+MATCHERS = {"m_cache_clear_identity": m_cache_clear_identity, "m_tzical_clone": m_tzical_clone}
 
 
 # --------------------------------------------------------------------------------------
@@ -210,6 +223,39 @@ def gen_history(w, rnd):
             prog.append(("clear",) if L.FGET in facs else ("drop", slot))
         else:
             prog.append(("size", rnd.choice([0, 1, 2, 3, 5, 8, 20, -1])) if L.FGET in facs else ("drop", slot))
+    return prog
+
+
+def cacheable(w, e):
+    kd = w.entries[e]["kind"]
+    if w.entries[e]["fac"] != L.FGET:
+        return kd[0] == L.K_FRESH
+    return kd[0] in (L.K_FRESH, L.K_STATIC) or (kd[0] == L.K_TZSTR and not kd[2])
+
+
+def gen_retention_probe(w, rnd):
+    """'retention only': hold one zone in slot 0, ask for MORE than the strong-cache size of other
+    keys (their references dropped, optionally with set_cache_size in between), then ask for the
+    held key again (possibly through other arguments that hash to the same key)"""
+    f = rnd.choice([L.FOFF, L.FOFF, L.FSTR, L.FGET])
+    ents = [e for e in w.pool[f] if cacheable(w, e)]
+    by_key = {}
+    for e in ents:
+        by_key.setdefault(w.entries[e]["key"], []).append(e)
+    keys = list(by_key)
+    rnd.shuffle(keys)
+    held, others = keys[0], keys[1:]
+    m = min(len(others), rnd.choice([8, 9, 9, 10, 12, 16]))
+    prog = [mk_call(w, rnd.choice(by_key[held]), 0)]
+    for j, k in enumerate(others[:m]):
+        prog.append(mk_call(w, rnd.choice(by_key[k]), rnd.choice([1, 1, 2])))
+        if f == L.FGET and rnd.random() < 0.08:
+            prog.append(("size", rnd.choice([0, 1, 3, 8, 20])))
+        if rnd.random() < 0.15:
+            prog.append(("drop", rnd.choice([1, 2])))
+    prog.append(mk_call(w, rnd.choice(by_key[held]), 5))
+    if rnd.random() < 0.5:
+        prog += [("drop", 0), mk_call(w, rnd.choice(by_key[held]), 6)]
     return prog
 
 
@@ -521,18 +567,18 @@ def worker(task):
             _k, cfg, idx = task
             rnd = C.rng("C18/seq/%s/%d" % (cfg, idx))
             w = CTX.world(cfg)
-            prog = gen_history(w, rnd)
+            prog = gen_retention_probe(w, rnd) if idx % 3 == 2 else gen_history(w, rnd)
             r = case_sequential(cfg, prog)
             r["input"] = {"mode": "sequential", "config": cfg, "program": [op_json(w, op) for op in prog]}
             r["task"] = task
             return r
         if kind == "sys":
-            _k, sc, first, a = task
+            _k, sc, first, a, full = task
             w = CTX.world("paths")
             name, progs = scenarios(w)[sc]
             outs = []
             last = None
-            for b in range(0, 40):
+            for b in (range(0, 40) if full else (0, 1, 2, 99)):
                 r = case_threads("paths", progs, ("sys", first, a, b), "C18/sys", utc_fresh=False)
                 key = tuple(r["sched"])
                 if key == last:
@@ -540,7 +586,7 @@ def worker(task):
                 last = key
                 r["input"] = {"mode": "threads", "config": "paths", "scenario": name,
                               "programs": [[op_json(w, op) for op in p] for p in progs], "schedule": r["sched"]}
-                r["task"] = task + (b,)
+                r["task"] = task[:4] + (b,)
                 outs.append(r)
             return outs
         if kind == "rand":
@@ -553,6 +599,10 @@ def worker(task):
                           "programs": [[op_json(w, op) for op in p] for p in progs], "schedule": r["sched"]}
             r["task"] = task
             return r
+        if kind == "clone":
+            _k, chunk, nchunks, full = task
+            payloads, st = clone_checks(chunk, nchunks, full)
+            return {"task": task, "clone_payloads": payloads, "clone_stats": st, "diff": None, "props": []}
         if kind == "utcfresh":
             _k, first, a = task
             w = CTX.world("paths")
@@ -594,6 +644,189 @@ def answers(z):
     return out
 
 
+ICS = """BEGIN:VCALENDAR
+BEGIN:VTIMEZONE
+TZID:US-Eastern
+BEGIN:STANDARD
+DTSTART:19671029T020000
+RRULE:FREQ=YEARLY;BYDAY=-1SU;BYMONTH=10
+TZOFFSETFROM:-0400
+TZOFFSETTO:-0500
+TZNAME:EST
+END:STANDARD
+BEGIN:DAYLIGHT
+DTSTART:19870405T020000
+RRULE:FREQ=YEARLY;BYDAY=1SU;BYMONTH=4
+TZOFFSETFROM:-0500
+TZOFFSETTO:-0400
+TZNAME:EDT
+END:DAYLIGHT
+END:VTIMEZONE
+BEGIN:VTIMEZONE
+TZID:Fixed-Plus-Two
+BEGIN:STANDARD
+DTSTART:19700101T000000
+TZOFFSETFROM:+0200
+TZOFFSETTO:+0200
+TZNAME:FPT
+END:STANDARD
+END:VTIMEZONE
+END:VCALENDAR
+"""
+
+
+def probe_grid(full):
+    """instants on both sides of every usual transition (each day of Mar/Apr/Oct/Nov, quick: 01:30 and
+    02:30 in 2021; thorough: 00:30..03:30 in 1987, 2000, 2021) plus mid-month noons and range ends;
+    each instant is asked with fold 0 and 1"""
+    g = []
+    for y in ((1987, 2000, 2021) if full else (2021,)):
+        for m in (3, 4, 10, 11):
+            for d in range(1, 31):
+                for hh in ((0, 1, 2, 3) if full else (1, 2)):
+                    g.append(datetime(y, m, d, hh, 30))
+        for m in range(1, 13):
+            g.append(datetime(y, m, 15, 12, 0))
+    g += [datetime(1, 1, 2), datetime(1900, 6, 1), datetime(1970, 1, 1), datetime(2038, 1, 19, 3, 14, 8),
+          datetime(2100, 7, 1), datetime(9999, 12, 30, 12)]
+    return g
+
+
+def grid_answers(z, grid):
+    out = []
+    for dt in grid:
+        for fold in (0, 1):
+            d = dt.replace(tzinfo=z, fold=fold)
+            try:
+                out.append((d.utcoffset(), d.dst(), d.tzname()))
+            except Exception as ex:
+                out.append(("EXC", type(ex).__name__))
+    return out
+
+
+def clone_pool():
+    """(label, zone): every constructor-argument variant of every zone class"""
+    import io
+    from dateutil import tz
+    from dateutil.relativedelta import relativedelta, SU, MO
+    out = []
+
+    def add(label, thunk):
+        try:
+            out.append((label, thunk()))
+        except Exception as ex:  # a variant this dateutil does not accept is simply absent
+            out.append((label + " [constructor raised %s]" % type(ex).__name__, None))
+    add("tz.UTC", lambda: tz.UTC)
+    add("tzutc()", lambda: tz.tzutc())
+    for name, off in [(None, 0), ("A", 3600), ("A", timedelta(hours=1)), ("B", -3600.0), ("C", 45), ("D", -1),
+                      ("E", timedelta(seconds=30)), ("F", timedelta(hours=5, minutes=30)), ("", 0), ("UTC", 0),
+                      ("G", timedelta(hours=-12)), ("H", 50400), ("I", timedelta(minutes=-1))]:
+        add("tzoffset(%r, %r)" % (name, off), lambda n=name, o=off: tz.tzoffset(n, o))
+        add("tzoffset.instance(%r, %r)" % (name, off), lambda n=name, o=off: tz.tzoffset.instance(n, o))
+    strs = ["GMT+3", "GMT-3", "UTC+3", "UTC-3", "GMT+3:30", "UTC-11", "GMT0", "UTC", "EST5", "EST5EDT",
+            "EST5EDT,M3.2.0,M11.1.0", "EST5EDT4,M3.2.0/2,M11.1.0/2", "AAA3BBB,M3.2.0/1,M11.1.0/3",
+            "CET-1CEST,M3.5.0,M10.5.0/3", "GMT+3BST,M3.5.0,M10.5.0", "UTC-3DDD,M10.1.0,M2.3.0",
+            "NZST-12NZDT,M9.5.0,M4.1.0/3", "EST5EDT,4,0,6,7200,10,0,26,7200,3600", "EST5EDT,J60,J300", "IST-5:30"]
+    for st in strs:
+        add("tzstr(%r)" % st, lambda x=st: tz.tzstr(x))
+        add("tzstr(%r, posix_offset=True)" % st, lambda x=st: tz.tzstr(x, posix_offset=True))
+        add("tzstr(%r, posix_offset=False)" % st, lambda x=st: tz.tzstr(x, posix_offset=False))
+        add("tzstr.instance(%r, True)" % st, lambda x=st: tz.tzstr.instance(x, True))
+    r1 = relativedelta(hours=+2, month=4, day=1, weekday=SU(+1))
+    r2 = relativedelta(hours=+1, month=10, day=31, weekday=SU(-1))
+    for label, args, kw in [
+            ("tzrange('EST')", ("EST",), {}),
+            ("tzrange('EST', -18000)", ("EST", -18000), {}),
+            ("tzrange('EST', timedelta)", ("EST", timedelta(hours=-5)), {}),
+            ("tzrange('EST', -18000, 'EDT')", ("EST", -18000, "EDT"), {}),
+            ("tzrange('EST', -18000, 'EDT', -14400)", ("EST", -18000, "EDT", -14400), {}),
+            ("tzrange(.., dstoffset=timedelta)", ("EST", timedelta(hours=-5), "EDT", timedelta(hours=-4)), {}),
+            ("tzrange(.., start, end)", ("EST", -18000, "EDT", -14400, r1, r2), {}),
+            ("tzrange(.., start only)", ("EST", -18000, "EDT"), {"start": r1}),
+            ("tzrange(.., end only)", ("EST", -18000, "EDT"), {"end": r2}),
+            ("tzrange(southern)", ("AEST", 36000, "AEDT", 39600,
+                                   relativedelta(hours=+2, month=10, day=1, weekday=SU(+1)),
+                                   relativedelta(hours=+2, month=4, day=1, weekday=SU(+1))), {}),
+            ("tzrange(monday rule)", ("X", 0, "Y", 1800, relativedelta(month=3, day=10, weekday=MO(+1)),
+                                      relativedelta(month=9, day=10, weekday=MO(-1))), {})]:
+        add(label, lambda a=args, k=kw: tz.tzrange(*a, **k))
+    files = [n for n in ("Europe/London", "America/New_York", "Australia/Lord_Howe", "Asia/Kolkata", "UTC",
+                         "Africa/Casablanca", "America/Sao_Paulo", "EST5EDT")
+             if os.path.isfile(os.path.join("/usr/share/zoneinfo", n))]
+    for n in files:
+        path = os.path.join("/usr/share/zoneinfo", n)
+        add("tzfile(path %s)" % n, lambda q=path: tz.tzfile(q))
+        add("tzfile(open file %s)" % n, lambda q=path: (lambda f: (tz.tzfile(f), f.close())[0])(open(q, "rb")))
+        add("tzfile(BytesIO %s)" % n, lambda q=path: tz.tzfile(io.BytesIO(open(q, "rb").read())))
+        add("tzfile(BytesIO, filename=%s)" % n, lambda q=path, m=n: tz.tzfile(io.BytesIO(open(q, "rb").read()), filename=m))
+        add("gettz(%s)" % n, lambda m=n: tz.gettz(m))
+        add("gettz.nocache(%s)" % n, lambda m=n: tz.gettz.nocache(m))
+    for n in ("UTC+3", "GMT-3", "EST5EDT4,M3.2.0,M11.1.0", ":UTC", ""):
+        add("gettz(%r)" % n, lambda m=n: tz.gettz(m))
+    add("tzical zone US-Eastern", lambda: tz.tzical(io.StringIO(ICS)).get("US-Eastern"))
+    add("tzical zone Fixed-Plus-Two", lambda: tz.tzical(io.StringIO(ICS)).get("Fixed-Plus-Two"))
+    saved = os.environ.get("TZ")
+    try:
+        for env in ("UTC", "GMT0", "EST5", "EST5EDT,M3.2.0,M11.1.0", "QQQ3RRR,M3.2.0,M11.1.0", "NZST-12NZDT,M9.5.0,M4.1.0/3"):
+            os.environ["TZ"] = env
+            time.tzset()
+            add("tzlocal() under TZ=%s" % env, lambda: tz.tzlocal())
+    finally:
+        os.environ["TZ"] = saved
+        time.tzset()
+    add("tzlocal()", lambda: tz.tzlocal())
+    return [(lab, z) for lab, z in out if z is not None], [lab for lab, z in out if z is None]
+
+
+def clone_checks(chunk, nchunks, full):
+    """copy / deepcopy / pickle 0..HIGHEST of every variant (this worker's share): equal both ways,
+    hash-equal where hashable, identical utcoffset/dst/tzname on the probe grid.
+    -> (violation payloads, stats)"""
+    grid = probe_grid(full)
+    pool, absent = clone_pool()
+    stats = {"clone_zones": 0, "clone_variants_absent": absent if chunk == 0 else [],
+             "clone_grid_instants_x_folds": 2 * len(grid), "clones": 0, "clone_classes": {}}
+    out = []
+    variants = [("copy", copy.copy), ("deepcopy", copy.deepcopy)]
+    for proto in range(0, pickle.HIGHEST_PROTOCOL + 1):
+        variants.append(("pickle%d" % proto, lambda x, p=proto: pickle.loads(pickle.dumps(x, p))))
+    for label, z in pool[chunk::nchunks]:
+        cname = type(z).__name__
+        stats["clone_zones"] += 1
+        stats["clone_classes"][cname] = stats["clone_classes"].get(cname, 0) + 1
+        base = None
+        for nm, fn in variants:
+            inp = {"zone": label, "via": nm, "cls": cname}
+            try:
+                c = fn(z)
+            except Exception as ex:
+                out.append({"kind": "copy/pickle raised", "input": inp, "exception": type(ex).__name__})
+                continue
+            stats["clones"] += 1
+            if not (c == z and z == c) or (c != z) or (z != c):
+                out.append({"kind": "copy/pickle of a zone is not equal to it", "input": inp})
+                continue
+            try:
+                hz = hash(z)
+            except TypeError:
+                hz = None
+            if hz is not None:
+                try:
+                    if hash(c) != hz:
+                        out.append({"kind": "copy/pickle of a zone is equal to it but hashes differently", "input": inp})
+                except TypeError:
+                    out.append({"kind": "copy/pickle of a hashable zone is unhashable", "input": inp})
+            if base is None:
+                base = grid_answers(z, grid)
+            got = grid_answers(c, grid)
+            if got != base:
+                k = next(i for i in range(len(base)) if base[i] != got[i])
+                out.append({"kind": "copy/pickle of a zone answers differently",
+                            "input": dict(inp, instant=str(grid[k // 2]), fold=k % 2,
+                                          original=str(base[k]), clone=str(got[k]))})
+    return out, stats
+
+
 def zone_pool():
     from dateutil import tz
     from dateutil.relativedelta import relativedelta, SU
@@ -619,6 +852,11 @@ def zone_pool():
     os.environ["TZ"] = saved
     time.tzset()
     zs.append(tz.tzlocal())
+    import io
+    zs.append(tz.tzical(io.StringIO(ICS)).get("US-Eastern"))
+    zs.append(tz.tzstr("GMT+3"))
+    zs.append(tz.tzstr("GMT+3", posix_offset=True))
+    zs.append(tz.tzstr("GMT-3"))
     return zs
 
 
@@ -654,7 +892,7 @@ def encode_zone(z, idx, names, classes):
 
 def glue_checks(verdict, o):
     from dateutil import tz
-    stats = {"zones": 0, "copies": 0, "eq_pairs": 0, "eq_true": 0, "classes": {}}
+    stats = {"zones": 0, "eq_pairs": 0, "eq_true": 0, "classes": {}}
     zs = zone_pool()
     stats["zones"] = len(zs)
     names = {"UTC": 1, "GMT": 2}
@@ -691,25 +929,6 @@ def glue_checks(verdict, o):
             if m != [1 if real else 0, 1 if real else 0]:
                 verdict.violation({"kind": "correspondence: == differs from FacEq.zone_eq", "input": inp,
                                    "impl": real, "model": m}, concrete=False)
-    # copies and pickles: equal, same answers
-    for z in zs:
-        variants = [("copy", copy.copy), ("deepcopy", copy.deepcopy)]
-        for proto in range(0, pickle.HIGHEST_PROTOCOL + 1):
-            variants.append(("pickle%d" % proto, lambda x, p=proto: pickle.loads(pickle.dumps(x, p))))
-        for nm, fn in variants:
-            sd = getattr(z, "_start_delta", None)
-            inp = {"zone": repr(z), "via": nm, "cls": type(z).__name__,
-                   "has_weekday_rule": bool(sd is not None and sd and getattr(sd, "weekday", None) is not None)}
-            try:
-                c = fn(z)
-            except Exception as ex:
-                verdict.violation({"kind": "copy/pickle raised", "input": inp, "exception": type(ex).__name__})
-                continue
-            stats["copies"] += 1
-            if not (c == z and z == c) or (c != z):
-                verdict.violation({"kind": "copy/pickle of a zone is not equal to it", "input": inp})
-            elif answers(c) != answers(z):
-                verdict.violation({"kind": "copy/pickle of a zone answers differently", "input": inp})
     return stats
 
 
@@ -782,34 +1001,41 @@ def main():
     t_props = time.time() - t0 - t_build
 
     quick = tier == "quick"
-    nproc = 8 if quick else 14
+    nproc = 12 if quick else 14
     n_seq = 300 if quick else 7000
     n_rand = 100 if quick else 3000
     tasks = []
     for i in range(n_seq):
         tasks.append(("seq", "paths" if i % 5 else "nopaths", i))
     w = CTX.world("paths")
-    nsc = 9 if quick else len(scenarios(w))   # the last five scenarios run in the thorough tier only
+    nsc = len(scenarios(w))
+    # quick: three race scenarios with every <= 2-pre-emption schedule, three more with every
+    # <= 1-pre-emption schedule (+ a few second pre-emptions); thorough: all fourteen in full
+    sc_list = [0, 1, 2, 3, 4, 6] if quick else list(range(nsc))
+    sc_full = {0, 2, 3} if quick else set(range(nsc))
     a_max = 12 if quick else 30
-    for sc in range(nsc):
+    for sc in sc_list:
         for first in (0, 1):
             for a in range(0, a_max):
-                tasks.append(("sys", sc, first, a))
+                tasks.append(("sys", sc, first, a, sc in sc_full))
     for first in (0, 1):
         for a in range(0, 6):
             tasks.append(("utcfresh", first, a))
     for i in range(n_rand):
         tasks.append(("rand", i))
+    n_clone_chunks = 16
+    clone_tasks = [("clone", c, n_clone_chunks, not quick) for c in range(n_clone_chunks)]
+    tasks = clone_tasks + tasks      # (the heaviest tasks first)
 
+    table_violation = None
     try:
         table_ok = True
         CTX.line_table()
     except ValueError as ex:
         table_ok = False
-        verdict.violation({"kind": "correspondence: the factory source contains a statement the model does not "
-                                   "have (line classification is fail-closed)", "input": None, "detail": str(ex)},
-                          concrete=False)
-        tasks = [t for t in tasks if t[0] == "seq"]
+        table_violation = {"kind": "correspondence: the factory source contains a statement the model does not "
+                                   "have (line classification is fail-closed)", "input": None, "detail": str(ex)}
+        tasks = [t for t in tasks if t[0] in ("seq", "clone")]
 
     # regression corpus (minimised earlier failures) runs first, in this process
     results = []
@@ -852,14 +1078,32 @@ def main():
     hist = {}
     distinct = set()      # hashes of distinct cases in which at least one cached-path call returned
     pending = []          # (concrete?, payload): submitted concrete first (only 5 replays are printed)
+    if table_violation is not None:
+        pending.append((False, table_violation))
 
     class _Collect:
         @staticmethod
         def violation(payload, concrete=True):
             pending.append((concrete, payload))
     real_verdict, verdict = verdict, _Collect
+    clone_stats = {"clone_zones": 0, "clones": 0, "clone_classes": {}, "clone_variants_absent": [],
+                   "clone_grid_instants_x_folds": 0}
+    clone_payloads = []
     for r in results:
         kind = r["task"][0]
+        if kind == "clone":
+            st = r.get("clone_stats")
+            if st is None:     # the worker failed: fail closed
+                pending.append((False, {"kind": "glue check failed to run", "input": None, "detail": r.get("diff")}))
+                continue
+            clone_payloads += r["clone_payloads"]
+            clone_stats["clone_zones"] += st["clone_zones"]
+            clone_stats["clones"] += st["clones"]
+            clone_stats["clone_variants_absent"] += st["clone_variants_absent"]
+            clone_stats["clone_grid_instants_x_folds"] = st["clone_grid_instants_x_folds"]
+            for k, v in st["clone_classes"].items():
+                clone_stats["clone_classes"][k] = clone_stats["clone_classes"].get(k, 0) + v
+            continue
         if kind == "sys" or kind == "utcfresh":
             key = (r["task"][:2] if kind == "sys" else ("u",), tuple(r.get("sched", [])))
             if key in seen_sys:
@@ -915,6 +1159,8 @@ def main():
                             "result": "every step validated against the extracted transition system"})
 
     verdict = real_verdict
+    for payload in clone_payloads:
+        pending.append((True, payload))
     for concrete, payload in sorted(pending, key=lambda x: (not x[0])):
         verdict.violation(payload, concrete=concrete)
     glue = {}
@@ -943,7 +1189,7 @@ def main():
                         "random_3_4_threads": stats["random"], "fresh_singleton_subclass": stats["utcfresh"],
                         "scheduling_points": stats["steps"], "blocked_grants": stats["blocked_steps"]},
         "exhaustive": False,
-        "small_scope": "2 threads, 1-2 operations each, every schedule with <= 2 pre-emptions, %d scenarios" % nsc,
+        "small_scope": "2 threads, 1-2 operations each, every schedule with <= 2 pre-emptions, %d scenarios" % len(sc_list),
         "sequential": {"histories": stats["sequential"], "operations": stats["sequential_ops"],
                        "histories_with_more_than_8_keys": stats["histories_exceeding_lru"],
                        "calls_returning_a_still_held_object": stats["returns_hit"],
@@ -952,7 +1198,7 @@ def main():
         "samples": samples,
         "model_vs_impl_disagreements": stats["diffs"],
         "spec_vs_impl_violations": stats["prop_violations"],
-        "glue": glue,
+        "glue": dict(glue, **clone_stats),
         "partial_theorems": ["C18_retention_only_guarded (guard: no gettz.cache_clear in the programs; the unguarded "
                              "statement is refuted: C18_retention_cache_clear_refuted, finding F-C18-a); "
                              "C18_factory_identity carries the same guard as 'same cache epoch'"],
